@@ -393,6 +393,10 @@ func (f *File) Pread(off int64, n int) ([]byte, error) {
 	if err != nil {
 		return nil, err
 	}
+	// The kernel has just learnt the file's size: if the file shrank behind its back (LiteFS truncated it while
+	// applying a transaction) the cached pages beyond the new size are dropped (fuse_change_attributes ->
+	// truncate_pagecache), so that they cannot come back when the file grows again.
+	f.M.PC.truncate(f.Name, size)
 	if off >= size {
 		return nil, nil
 	}
